@@ -102,16 +102,16 @@ def generate(rng, tier):
     n = 0
     for _ in range(80 if tier == 'quick' else 2500):
         items = rand_flat(r)
-        placement = r.pick(['cwd', 'searchpath', 'absolute', 'symlink'])
+        placement = r.pick(['cwd', 'searchpath', 'absolute', 'symlink', 'tilde'])
         linked = placement == 'symlink'       # the search-path directory holds symbolic links to the files
         if linked:
             placement = 'searchpath'
-        prefix = {'cwd': b'', 'searchpath': b'', 'absolute': b'${ROOT}/inc/'}[placement]
+        prefix = {'cwd': b'', 'searchpath': b'', 'absolute': b'${ROOT}/inc/', 'tilde': b'~bob/inc/'}[placement]      # tilde: `~user/path` names
         sub = b'sub/' if r.chance(1, 3) else b''        # include names with a directory part are resolved like bare ones
         fs = Files(prefix + sub)
         main = split_items(r, items, fs, [1 + r.below(6)])
-        lines = ['envroot ' + hx(b'ROOT')] + gen.prelude(SCHEMA, 0) + ['init 1 0 0']
-        d = {'cwd': b'', 'searchpath': b'sp/', 'absolute': b'inc/'}[placement]
+        lines = ['envroot ' + hx(b'ROOT'), 'passwd %s %s' % (hx(b'bob'), hx(b'@R/home/bob'))] + gen.prelude(SCHEMA, 0) + ['init 1 0 0']
+        d = {'cwd': b'', 'searchpath': b'sp/', 'absolute': b'inc/', 'tilde': b'home/bob/inc/'}[placement]
         for name, text in fs.files.items():
             if linked:
                 lines += ['file %s file %s' % (hx(b'real/' + name), hx(text)), 'file %s link %s' % (hx(d + sub + name), hx(b'real/' + name))]
@@ -122,7 +122,7 @@ def generate(rng, tier):
             lines += ['searchpath 1 ' + hx(b'other'), 'searchpath 1 ' + hx(b'sp')]
         p0 = len(lines)
         lines.append('parse_buf 0 ' + hx(flat_text(items)))
-        if r.chance(1, 2) and placement != 'searchpath':
+        if (r.chance(1, 2) and placement != 'searchpath') or placement == 'tilde':
             lines.append('parse_buf 1 ' + hx(main))
         else:
             lines.append('file %s file %s' % (hx(d + b'main.conf'), hx(main)))
@@ -174,6 +174,15 @@ def generate(rng, tier):
         lines += ['parse_buf 0 ' + hx(b'include("c1.conf")\nb = on\n'), 'dump 0', 'parse_buf 0 ' + hx(b'include("c1.conf")\n') if depth <= LIMIT else 'parse_buf 0 ' + hx(b'i = 1\n')]
         n += 1
         yield Scn('chain%d' % depth, lines, {'class': 'chain', 'kind': 'chain', 'depth': depth})
+    # a readable target that is neither a regular file nor a directory reads like its text in place (library only:
+    # the model's file system knows files and directories)
+    for k, (main, flat) in enumerate(((b'i = 1\ninclude("/dev/null")\nb = on\n', b'i = 1\nb = on\n'),
+                                      (b'sec {\n include("/dev/null")\n a = 4 }\ni = 2\n', b'sec {\n a = 4 }\ni = 2\n'))):
+        lines = gen.prelude(SCHEMA, 0) + ['init 1 0 0']
+        p0 = len(lines)
+        lines += ['parse_buf 0 ' + hx(flat), 'parse_buf 1 ' + hx(main), 'dump 0', 'dump 1']
+        n += 1
+        yield Scn('devnull%d' % k, lines, {'class': 'equivalence/devnull', 'kind': 'eq', 'depth': 2, 'p0': p0, 'p1': p0 + 1, 'impl_only': True})
     # failures, repeated, then a good include
     bad = {'missing': b'include("nope.conf")\n', 'dir': b'include("d")\n', 'self': b'include("self.conf")\n', 'inner-error': b'include("bad.conf")\n',
            'inner-open-string': b'include("open.conf")\n', 'too-deep': b'include("c1.conf")\n', 'bad-args': b'include(a, b)\n',
